@@ -3,8 +3,10 @@ From Ford Require Import Base.Str Sem.UseAssoc.
 
 (* short constructors for the harness *)
 Definition D (n : str) (k : kind) (p : perm) : decl := {| d_name := n; d_kind := k; d_perm := p |}.
-Definition U (t : str) (o : option (list (str * str))) (r : list (str * str)) : use_stmt :=
-  {| u_target := t; u_only := o; u_renames := r |}.
+Definition Un (i : bool) (t : str) (o : option (list (str * str))) (r : list (str * str)) : use_stmt :=
+  {| u_target := t; u_only := o; u_renames := r; u_intrinsic := i |}.
+Definition U := Un false.
+Definition Ui := Un true.      (* use, intrinsic :: t *)
 Definition Md (n : str) (p : perm) (ds : list decl) (a : list (str * bool)) (us : list use_stmt)
               (ns : list nscope) : module :=
   {| m_name := n; m_default := p; m_decls := ds; m_access := a; m_uses := us; m_nested := ns |}.
@@ -15,7 +17,7 @@ Definition Ns (path : list str) (kinds : list nkind) (ds : list decl) (us : list
 Definition lower_pairs (l : list (str * str)) := map (fun lr => (lower (fst lr), lower (snd lr))) l.
 Definition lower_decls (ds : list decl) := map (fun d => D (lower (d_name d)) (d_kind d) (d_perm d)) ds.
 Definition lower_uses (us : list use_stmt) :=
-  map (fun u => U (lower (u_target u))
+  map (fun u => Un (u_intrinsic u) (lower (u_target u))
                   (match u_only u with Some i => Some (lower_pairs i) | None => None end)
                   (lower_pairs (u_renames u))) us.
 Definition lower_module (M : module) : module :=
@@ -36,10 +38,16 @@ Record unit_obs := { o_name : str; o_is_module : bool; o_pub : list table; o_all
 Record ref_obs := { f_unit : str; f_path : list str; f_cls : cls; f_id : str; f_ent : option ent }.
 (* the four all_* dictionaries of a nested scope (procs, absinterfaces, types, vars) *)
 Record nest_obs := { q_unit : str; q_path : list str; q_all : list table }.
+(* what a USE statement of a scope was matched with: b_kind 0 nothing (the name stays text), 1 a
+   module of the project (b_name), 2 a link object for an intrinsic / extra module (b_name);
+   b_intr: every USE statement of the scope for this name is written USE, INTRINSIC :: *)
+Record bind_obs := { b_unit : str; b_path : list str; b_target : str; b_intr : bool; b_kind : nat; b_name : str }.
 Record run := { r_files : list str;          (* unit names in the order the files were read *)
                 r_order : list str;          (* the order in which FORD correlated the units *)
                 r_exc : bool;                (* Project.correlate raised CircularDependencyError *)
-                r_units : list unit_obs; r_refs : list ref_obs; r_nested : list nest_obs }.
+                r_units : list unit_obs; r_refs : list ref_obs; r_nested : list nest_obs;
+                r_ext : list str;            (* names of the link objects: INTRINSIC_MODS and extra_mods *)
+                r_binds : list bind_obs }.
 Definition case := (graph * list run)%type.
 
 Definition reorder (g : graph) (files : list str) : graph :=
@@ -81,11 +89,55 @@ Definition local_or_none (M : module) (e : option ent) : bool :=
 Definition lookup (n : str) (l : list (str * ent)) : option ent :=
   match find (fun kv => str_eqb (fst kv) n) l with Some kv => Some (snd kv) | None => None end.
 
+(* find_used_modules: first candidate of the name in chain(modules, external_modules), for a name
+   in the scope's intrinsic_uses among the link objects only.  The scope is a module / program
+   (path []) or a nested scope; b_intr is computed by the harness from the statements, and checked
+   here against the model's scope_intrinsic when the scope is found *)
+Definition scope_of_bind (g : graph) (b : bind_obs) : option module :=
+  match find_module g (b_unit b) with
+  | None => None
+  | Some M => match b_path b with
+              | [] => Some M
+              | p => match find (fun Sc => list_eqb str_eqb (s_path Sc) p) (m_nested M) with
+                     | Some Sc => Some (as_module M Sc)
+                     | None => None
+                     end
+              end
+  end.
+Definition bind_intr (g : graph) (b : bind_obs) : bool :=
+  match scope_of_bind g b with Some Sc => scope_intrinsic Sc (b_target b) | None => false end.
+Definition bind_model_ok (g : graph) (ext : list str) (b : bind_obs) : bool :=
+  match find_used_in g ext (bind_intr g b) (b_target b) with
+  | Some (CMod M) => Nat.eqb (b_kind b) 1 && str_eqb (b_name b) (m_name M)
+  | Some (CExt n) => Nat.eqb (b_kind b) 2 && str_eqb (b_name b) n
+  | None => Nat.eqb (b_kind b) 0
+  end.
+(* Fortran 2018 14.2.2: with INTRINSIC the intrinsic module (never a module of the project);
+   otherwise the project's module of the name if there is one, else an intrinsic / extra module *)
+Definition bind_spec_ok (g : graph) (ext : list str) (b : bind_obs) : bool :=
+  if b_intr b
+  then (if str_in (b_target b) ext then Nat.eqb (b_kind b) 2 && str_eqb (b_name b) (b_target b)
+        else Nat.eqb (b_kind b) 0)
+  else match find_module g (b_target b) with
+       | Some M => Nat.eqb (b_kind b) 1 && str_eqb (b_name b) (m_name M)
+       | None => if str_in (b_target b) ext then Nat.eqb (b_kind b) 2 && str_eqb (b_name b) (b_target b)
+                 else Nat.eqb (b_kind b) 0
+       end.
+(* the Spec's answer where the model gives the same answer as the Spec *)
+Definition bind_spec_ok_x (g : graph) (ext : list str) (b : bind_obs) : bool :=
+  let as_model := {| b_unit := b_unit b; b_path := b_path b; b_target := b_target b; b_intr := b_intr b;
+                     b_kind := match find_used_in g ext (bind_intr g b) (b_target b) with
+                               | Some (CMod _) => 1 | Some (CExt _) => 2 | None => 0 end;
+                     b_name := match find_used_in g ext (bind_intr g b) (b_target b) with
+                               | Some x => cand_name x | None => b_name b end |} in
+  negb (bind_spec_ok g ext as_model) || bind_spec_ok g ext b.
+
 Definition model_ok (g : graph) (r : run) : bool :=
   match toposort g with
   | None => r_exc r
   | Some _ =>
     negb (r_exc r) && topo_b g (r_order r)
+    && forallb (bind_model_ok g (r_ext r)) (r_binds r)
     && forallb (fun c =>
          let st := correlate_all c g (r_order r) in
          forallb (fun o => match find_module g (o_name o) with
@@ -149,6 +201,7 @@ Definition nested_clear (g : graph) (M : module) (Sc : nscope) : bool :=
    Spec makes accessible by use association (or from the module, for procedures) is there *)
 Definition spec_ok (g : graph) (r : run) : bool :=
   negb (r_exc r)
+  && forallb (bind_spec_ok g (r_ext r)) (r_binds r)
   && forallb (fun c =>
        forallb (fun o => match find_module g (o_name o) with
                          | None => false
@@ -221,6 +274,7 @@ Definition table_has_x (t : table) (m l : list (str * ent)) : bool :=
 
 Definition spec_ok_x (g : graph) (r : run) : bool :=
   negb (r_exc r)
+  && forallb (bind_spec_ok_x g (r_ext r)) (r_binds r)
   && forallb (fun c =>
        let st := correlate_all c g (r_order r) in
        forallb (fun o => match find_module g (o_name o) with
@@ -293,6 +347,7 @@ Definition spec_ok_x (g : graph) (r : run) : bool :=
 (* acyclic = the toposort model succeeds; the Spec is only asked about legal programs (region
    value 32 marks the programs that are not: ambiguous identifiers, cycles, self use).
    bit 1: the implementation differs from the Spec where the model agrees with the Spec;
+
    region value 64: the implementation differs from the Spec somewhere (explained or not). *)
 Definition judge_run (g0 : graph) (r : run) : nat :=
   let g := reorder (map lower_module g0) (map lower (r_files r)) in
@@ -308,8 +363,14 @@ Definition Rf (u : str) (path : list str) (c : cls) (id : str) (e : option ent) 
   {| f_unit := u; f_path := path; f_cls := c; f_id := id; f_ent := e |}.
 Definition Nb (u : str) (path : list str) (all : list table) : nest_obs :=
   {| q_unit := u; q_path := path; q_all := all |}.
-Definition R (files order : list str) (obs : list unit_obs * list ref_obs * list nest_obs) : run :=
+Definition Bn (u : str) (path : list str) (t : str) (intr : bool) (k : nat) (n : str) : bind_obs :=
+  {| b_unit := u; b_path := path; b_target := t; b_intr := intr; b_kind := k; b_name := n |}.
+Definition Rb (files order : list str) (ext : list str) (binds : list bind_obs)
+              (obs : list unit_obs * list ref_obs * list nest_obs) : run :=
   {| r_files := files; r_order := order; r_exc := false; r_units := fst (fst obs); r_refs := snd (fst obs);
-     r_nested := snd obs |}.
+     r_nested := snd obs; r_ext := ext; r_binds := binds |}.
+Definition R (files order : list str) (obs : list unit_obs * list ref_obs * list nest_obs) : run :=
+  Rb files order [] [] obs.
 Definition RX (files : list str) : run :=
-  {| r_files := files; r_order := []; r_exc := true; r_units := []; r_refs := []; r_nested := [] |}.
+  {| r_files := files; r_order := []; r_exc := true; r_units := []; r_refs := []; r_nested := [];
+     r_ext := []; r_binds := [] |}.
